@@ -33,7 +33,26 @@ case "${1:-}" in
     done
     echo LABDONE
     ;;
+  testall)
+    # apply ONE change, run every check against it, undo (for behaviour-preserving changes: every check must stay silent)
+    shift
+    export VERIF_REPO=$LAB/repo VERIF_DIR=$LAB/verif
+    cd $LAB/verif
+    for arg in "$@"; do
+      d="$(cd "$arg" && pwd)"
+      echo "=== $arg (all checks)"
+      git -C $LAB/repo checkout -q -- .
+      git -C $LAB/repo apply "$d/patch.diff" || { echo "patch does not apply"; continue; }
+      for id in C02 C03 C04 C05 C06 C13 C08; do
+        echo "--- $id"
+        ./check "$id" quick 2>&1 | grep -E "^VIOLATION|^runs=|HARNESS|^  oracle" | cut -c1-360 | head -8
+      done
+      git -C $LAB/repo checkout -q -- .
+      git -C $LAB/repo clean -fdq -- wow_world_messages wow_login_messages wow_message_parser wow_world_base wowm_language 2>/dev/null
+    done
+    echo LABDONE
+    ;;
   clean)
     git -C /repo worktree remove --force $LAB/repo 2>/dev/null; rm -rf $LAB; git -C /repo worktree prune ;;
-  *) echo "usage: lab.sh sync | test <seed-dir>:<ID> ... | clean"; exit 2 ;;
+  *) echo "usage: lab.sh sync | test <seed-dir>:<ID> ... | testall <dir> ... | clean"; exit 2 ;;
 esac
